@@ -27,6 +27,9 @@ type BranchDispatcher struct {
 
 	// canMatchEmpty is true if any branch can match empty string
 	canMatchEmpty bool
+
+	// exact is true if IsMatch/Search decide the alternation exactly (see IsExact)
+	exact bool
 }
 
 // branchMatcher is a simple matcher for a single alternation branch.
@@ -38,6 +41,11 @@ type branchMatcher struct {
 	charClass    [256]bool
 	minMatch     int
 	hasCharClass bool
+
+	// exact is true when the matcher decides the whole branch (an ASCII
+	// case-sensitive literal or a greedy ASCII char class+). Branches that
+	// cannot be decided exactly make the pattern unsuitable for dispatch.
+	exact bool
 }
 
 // NewBranchDispatcher creates a dispatcher for an anchored alternation.
@@ -71,6 +79,7 @@ func NewBranchDispatcher(re *syntax.Regexp) *BranchDispatcher {
 
 	branchMatchers := make([]branchMatcher, len(branches))
 	canMatchEmpty := false
+	exact := true
 
 	for i, branch := range branches {
 		fb := ExtractFirstBytes(branch)
@@ -97,6 +106,15 @@ func NewBranchDispatcher(re *syntax.Regexp) *BranchDispatcher {
 
 		// Build specialized matcher for this branch
 		branchMatchers[i] = buildBranchMatcher(branch)
+		if !branchMatchers[i].exact {
+			exact = false
+		}
+	}
+
+	if canMatchEmpty {
+		// With a branch that matches the empty string, "distinct first bytes"
+		// no longer means that at most one branch can match (priority matters).
+		exact = false
 	}
 
 	return &BranchDispatcher{
@@ -104,7 +122,16 @@ func NewBranchDispatcher(re *syntax.Regexp) *BranchDispatcher {
 		branches:       branches,
 		branchMatchers: branchMatchers,
 		canMatchEmpty:  canMatchEmpty,
+		exact:          exact,
 	}
+}
+
+// IsExact reports whether every branch is decided exactly by its byte matcher
+// (case-sensitive ASCII literal or greedy ASCII char class+) and no branch can
+// match the empty string. Only then are IsMatch and Search the final answer for
+// the alternation; the meta engine uses the dispatcher as a strategy only if so.
+func (d *BranchDispatcher) IsExact() bool {
+	return d != nil && d.exact
 }
 
 // buildBranchMatcher creates an optimized matcher for a single branch.
@@ -120,67 +147,40 @@ func buildBranchMatcher(re *syntax.Regexp) branchMatcher {
 
 	switch re.Op {
 	case syntax.OpLiteral:
-		// Literal like "UUID"
-		m.literal = make([]byte, len(re.Rune))
+		// Literal like "UUID": bytes are compared exactly, so the literal must
+		// be case-sensitive ASCII.
+		if re.Flags&syntax.FoldCase != 0 || len(re.Rune) == 0 {
+			return m
+		}
+		lit := make([]byte, len(re.Rune))
 		for i, r := range re.Rune {
-			if r > 255 {
+			if r > 0x7F {
 				return m // Non-ASCII, can't optimize
 			}
-			m.literal[i] = byte(r)
+			lit[i] = byte(r)
 		}
+		m.literal = lit
+		m.exact = true
 
 	case syntax.OpPlus:
-		// char_class+ like \d+
-		if len(re.Sub) == 1 && re.Sub[0].Op == syntax.OpCharClass {
-			cc := re.Sub[0]
-			for i := 0; i < len(cc.Rune); i += 2 {
-				lo, hi := cc.Rune[i], cc.Rune[i+1]
-				if hi > 255 {
-					hi = 255
-				}
-				if lo > 255 {
-					continue
-				}
-				for r := lo; r <= hi; r++ {
-					m.charClass[byte(r)] = true
-				}
-			}
-			m.hasCharClass = true
-			m.minMatch = 1
+		// Greedy char_class+ like \d+ over an ASCII class. (char_class* can match
+		// empty and lazy quantifiers have a different span: not dispatchable.)
+		if len(re.Sub) != 1 || re.Sub[0].Op != syntax.OpCharClass || re.Flags&syntax.NonGreedy != 0 {
+			return m
 		}
-
-	case syntax.OpStar:
-		// char_class* like \d*
-		if len(re.Sub) == 1 && re.Sub[0].Op == syntax.OpCharClass {
-			cc := re.Sub[0]
-			for i := 0; i < len(cc.Rune); i += 2 {
-				lo, hi := cc.Rune[i], cc.Rune[i+1]
-				if hi > 255 {
-					hi = 255
-				}
-				if lo > 255 {
-					continue
-				}
-				for r := lo; r <= hi; r++ {
-					m.charClass[byte(r)] = true
-				}
+		cc := re.Sub[0]
+		for i := 0; i < len(cc.Rune); i += 2 {
+			lo, hi := cc.Rune[i], cc.Rune[i+1]
+			if lo > 0x7F || hi > 0x7F {
+				return branchMatcher{} // a rune >= 0x80 is not a single byte
 			}
-			m.hasCharClass = true
-			m.minMatch = 0
-		}
-
-	case syntax.OpConcat:
-		// Concatenation - check if starts with literal
-		if len(re.Sub) > 0 && re.Sub[0].Op == syntax.OpLiteral {
-			lit := re.Sub[0]
-			m.literal = make([]byte, len(lit.Rune))
-			for i, r := range lit.Rune {
-				if r > 255 {
-					return branchMatcher{} // Non-ASCII
-				}
-				m.literal[i] = byte(r)
+			for r := lo; r <= hi; r++ {
+				m.charClass[byte(r)] = true
 			}
 		}
+		m.hasCharClass = true
+		m.minMatch = 1
+		m.exact = true
 	}
 
 	return m
@@ -308,9 +308,14 @@ func IsBranchDispatchPattern(re *syntax.Regexp) bool {
 			inner = sub.Sub[0]
 		}
 		if inner.Op == syntax.OpAlternate {
+			// The dispatcher's span is the final answer, so the alternation must be
+			// the whole pattern after the anchor (nothing may follow it).
+			if len(re.Sub) != 2 {
+				return false
+			}
 			// Try to build dispatcher - if it succeeds, pattern is suitable
 			dispatcher := NewBranchDispatcher(sub)
-			return dispatcher != nil
+			return dispatcher.IsExact()
 		}
 	}
 
